@@ -15,6 +15,14 @@ owner tag per catalog entry and with the two guarded entry points of the real co
                  When an existing table is replaced, every dict entry whose physical name is `name`
                  is removed as well (repair F24; before it the dict was not touched and a stale entry
                  stayed).  The returned SplinkDataFrame has `created_by_splink = False`.
+                 Since repair 4551b8fa a replacement also calls `_forget_results_computed_from(name)`: the
+                 results computed from the replaced table that are stored under a templated name are deleted
+                 from the dict — in this model those are separate `forgetNamed` operations (dict only, no
+                 catalog effect) — and the salt of the hashed names is re-drawn (`Cache.resalt`).  No `resalt`
+                 operation is needed HERE: ownership does not depend on which salt named a table, so a request's
+                 `text` code stands for the pair (SQL text, salt in force) and `base.uid` stays 0 (the
+                 correspondence `harness/props/c18.py` codes requests exactly so); the salt matters for what a
+                 request RETURNS, which is C07's business (`Cache.reregister`, `C07.reregistration_reflects_new_data`).
 * `dropDf`     — `SplinkDataFrame.drop_table_from_database_and_remove_from_cache(force_non_splink_table)`:
                  `_check_drop_table_created_by_splink` raises unless `created_by_splink or force`; then
                  `DROP TABLE IF EXISTS`, then `remove_splinkdataframe_from_cache`
